@@ -47,6 +47,9 @@ type Scenario struct {
 	// FailFirstPublish: the first publish attempt of the channel fails (transport error);
 	// the Send that hit it reports the error, later Sends must still get fresh numbers.
 	FailFirstPublish bool `json:"fail_first_publish,omitempty"`
+	// MaxBound caps the preemption bound of the scenario (0 = the unit's bound, -1 = no
+	// preemption at all: only the free choices).
+	MaxBound int `json:"max_bound,omitempty"`
 }
 
 type obs struct {
@@ -196,12 +199,14 @@ func Scenarios(thorough bool) []Scenario {
 		{Name: "sends-first-publish-fails", Senders: 2, NoR1: true, NoR2: true, FailFirstPublish: true},
 	}
 	if thorough {
+		// (cheapest first; the scenarios with two receivers or four deliveries have about a
+		// million executions at bound 1 and are not taken to bound 2)
 		scs = append(scs,
-			Scenario{Name: "dups-2receivers", Workers: [][]string{{"A1", "A1"}, {"A1"}}},
-			Scenario{Name: "dups-2senders", Workers: [][]string{{"A1", "B1"}, {"B1", "A1"}}, NoR1: true},
-			Scenario{Name: "cancel-2workers", Workers: [][]string{{"A1"}, {"A1"}}, Cancel: true},
 			Scenario{Name: "late-registration", Workers: [][]string{{"A1", "A1"}}, LateReg: true, NoR1: true},
-			Scenario{Name: "sends-3", Senders: 3, NoR1: true, NoR2: true},
+			Scenario{Name: "sends-3", Senders: 3, NoR1: true, NoR2: true, MaxBound: 1},
+			Scenario{Name: "cancel-2workers", Workers: [][]string{{"A1"}, {"A1"}}, Cancel: true, MaxBound: -1},
+			Scenario{Name: "dups-2senders", Workers: [][]string{{"A1", "B1"}, {"B1", "A1"}}, NoR1: true, MaxBound: 1},
+			Scenario{Name: "dups-2receivers", Workers: [][]string{{"A1", "A1"}, {"A1"}}, MaxBound: 1},
 		)
 	}
 	return scs
@@ -237,15 +242,23 @@ func Run(r *vrep.R, unit string, a Adapter, fatalf func(string, ...any)) {
 			r.ReplayedTwice(1)
 			r.Sample(map[string]any{"unit": unit, "scenario": sc, "script": x.Choices(), "handled": fmt.Sprint(o.handled)})
 		}
-		for bound := 0; bound <= maxBound; bound++ {
-			if bound < maxBound && shard != 0 {
+		scBound := maxBound
+		if sc.MaxBound > 0 && sc.MaxBound < scBound {
+			scBound = sc.MaxBound
+		} else if sc.MaxBound < 0 {
+			scBound = 0
+		}
+		for bound := 0; bound <= scBound; bound++ {
+			if bound < scBound && shard != 0 {
 				continue
 			}
 			op := opts(bound)
 			op.Shard, op.Shards = shard, shards
 			st := vsched.Explore(op, body(a, sc, &o), func(s *vsched.Sched) { evaluate(r, unit, sc, bound, s, &o) })
-			if bound < maxBound {
+			if bound < scBound {
 				r.Set(fmt.Sprintf("%s.bound%d_execs", sc.Name, bound), st.Execs)
+			} else {
+				r.Add(fmt.Sprintf("%s.bound%d_execs", sc.Name, bound), st.Execs)
 			}
 			if st.Stopped {
 				r.Cap(fmt.Sprintf("%s bound %d not completed", sc.Name, bound))
